@@ -92,7 +92,12 @@ func (r *Run) globalObj(g *ssa.Global) *Object {
 	o := r.newObject(t, KGlobal, g.RelString(nil))
 	o.Owned = false
 	r.globals[g] = o
+	// seeding models the package's own initialisation, not a store by the
+	// operation under test
+	mon := r.monitor
+	r.monitor = false
 	r.seedGlobal(g, o)
+	r.monitor = mon
 	return o
 }
 
@@ -382,8 +387,16 @@ func (r *Run) allocLen(t *Term, what string) int64 {
 	if t.W < 64 {
 		t = r.ts.SExt(t, 64)
 	}
+	if t.IsConst() {
+		// a constant-size allocation is O(1) whatever the input
+		n := signExt(t.Val, 64)
+		if n < 0 {
+			r.fail("panic", what+": negative length", "")
+		}
+		return n
+	}
 	r.check(r.ts.SLE(r.ts.Const(64, 0), t), "panic", what+": negative length", "")
-	r.check(r.ts.SLE(t, r.ts.Const(64, uint64(r.allocMax))), "alloc", what+": allocation larger than bound", fmt.Sprintf("bound=%d", r.allocMax))
+	r.check(r.ts.SLE(t, r.ts.Const(64, uint64(r.allocMax))), "alloc", what+": input-controlled allocation larger than bound", fmt.Sprintf("bound=%d", r.allocMax))
 	return r.concretizeSigned(t, what)
 }
 
